@@ -17,6 +17,7 @@ case "$id" in
   *) exit 0 ;;
 esac
 export CARGO_NET_OFFLINE=true
+mkdir -p "$ROOT/out/fuzz" "$ROOT/out/parts" "$ROOT/out/replays"
 cd "$HERE" || exit 2
 cp ../harness/Cargo.lock . 2>/dev/null
 if ! cargo +nightly fuzz build --fuzz-dir . >"$ROOT/out/fuzz-build.log" 2>&1; then
